@@ -456,7 +456,9 @@ func partHostileIdentity(c *vf.Ctx, g *gitx.Git) {
 			continue
 		}
 		// what does git show for the hostile entry itself?
-		if got[1].Name != hc.name || got[1].Email != hc.email {
+		// expectation: what git's own writer would have recorded (it drops <, > and LF)
+		gitSan := strings.NewReplacer("<", "", ">", "", "\n", "")
+		if got[1].Name != gitSan.Replace(hc.name) || got[1].Email != gitSan.Replace(hc.email) {
 			c.Fail("append:hostile-identity-not-sanitised:"+hc.cls, fmt.Sprintf("identity %q <%q>: go-git writes it verbatim, git then lists %q <%q> (git's own writer strips such characters before writing)", hc.name, hc.email, got[1].Name, got[1].Email), hc.cls)
 		}
 	}
